@@ -4,7 +4,7 @@ import ast
 from sa.absval import AbsEval, Const, Kind
 from sa.expr import txt, match, atom, unawait, linear, lin_text, int_ordering, ordering
 from sa.model import AnalysisError
-from .common import assume_from, describe
+from .common import assume_from, describe, or_default
 from .seq import PV, definite_index_error, before, between, guards_matching, own_nodes
 
 FLAVOURS = [
@@ -263,7 +263,7 @@ def close_once(A, fl, rule):
                     behaviour='re-entrancy window between test and set')
         # event arguments
         ok = len(call.args) >= 3 and txt(call.args[1]) == 'self.sid' and \
-            txt(call.args[2]) == 'reason or self.server.reason.SERVER_DISCONNECT' and \
+            or_default(p, txt(call.args[2]), 'reason', 'self.server.reason.SERVER_DISCONNECT') and \
             any(k.arg == 'run_async' and match('False', k.value) is not None
                 for k in call.keywords)
         A.check(ok, rule + '.reason', "%s close() reports its own sid, the caller's reason "
@@ -783,7 +783,15 @@ def poll_rules(A, fl, rule, timeout_rule=None):
         if p.outcome == 'return':
             rv = txt(p.value)
             first_t = txt(v.ev[first[0][0]].expr) if first else '?'
-            okret = rv == '[]' or rv == '[%s]' % first_t
+            # the batch: the first dequeued packet, then every packet the drain loop took and
+            # appended, in dequeue order (appends to the local list are tracked by the engine)
+            appended = []
+            for g, _c in sorted(nb):
+                gt = txt(v.ev[g].expr)
+                nx = min([i for i, _ in nb if i > g] + [len(v.ev)])
+                if any(g < i < nx and txt(c['x']) == gt for i, c in v.calls('_l.append(_x)')):
+                    appended.append(gt)
+            okret = rv == '[]' or rv == '[%s]' % ', '.join([first_t] + appended)
             A.check(okret, rule + '.batch', '%s poll(): returns [] for the sentinel or the batch '
                     'starting with the first dequeued packet' % fl['name'], site,
                     key='%s-poll-return' % fl['name'], detail=['return ' + rv] + v.describe(),
